@@ -42,9 +42,9 @@ META = {
 RELATIONS = ['disjoint', 'same_names', 'shared_nested', 'subclass']
 
 
-def gen_pair(r, relation):
+def gen_pair(r, relation, ext=False):
     """returns (history, set of G class ids)"""
-    p = base.Prog(r, max_classes=8)
+    p = base.Prog(r, max_classes=8, ext=ext)
     F, G = set(), set()
     shared = None
     if relation == 'shared_nested':
@@ -79,14 +79,25 @@ def gen_pair(r, relation):
         if fam == 'F' and relation == 'same_names' and p.decl[c]['inner'] is None and r.random() < 0.7:
             p.decl[c]['inner'] = base.gen_meta(r)
         if fam == 'G' and relation == 'subclass' and p.decl[c]['wiz'] and p.decl[c]['inner'] is None and r.random() < 0.6:
-            p.decl[c]['inner'] = base.gen_meta(r)
+            p.decl[c]['inner'] = base.gen_meta_x(r) if ext else base.gen_meta(r)
         (F if fam == 'F' else G).add(c)
         if fam == 'F':
             fq.append(p.decl[c]['qn'])
     # bindings before first use
+    shared_cfg = None
+    if ext and r.random() < 0.45:
+        # F and G configured from the SAME Python objects (one mapping constant, one Condition)
+        k, kc = r.choice(sorted(base.SHARED_MAPS)), r.choice(sorted(base.SHARED_CONDS))
+        shared_cfg = {'jk2f': {'obj': k, 'map': base.SHARED_MAPS[k]}}
+        if r.random() < 0.4:
+            shared_cfg['skip_if'] = {'obj': kc, 'cond': base.SHARED_CONDS[kc]}
     for c in list(p.decl):
-        if r.random() < (0.5 if c in F else 0.3) or (c in must_bind and r.random() < 0.8):
-            p.bind(c)
+        f_root = ext and c in F and any(isinstance(ty, dict) for _, ty, _ in p.decl[c]['fields'])
+        if r.random() < (0.5 if c in F else 0.3) or (c in must_bind and r.random() < 0.8) or (shared_cfg and r.random() < 0.7) \
+                or (f_root and r.random() < 0.7):
+            o = p.bind(c)
+            if o is not None and shared_cfg and r.random() < 0.8:
+                o['meta'].update(shared_cfg)
     # exercise F first mostly, then G, with some interleaving
     n_use = r.choice([2, 3, 4, 5, 6, 8])
     for k in range(n_use):
@@ -101,16 +112,17 @@ def proj(h, G):
     return [o for o in h if base.op_class(o) in G]
 
 
-def check_pairs(ctx, pairs, label):
+def check_pairs(ctx, pairs, label, model=True):
     """pairs: list of (history, G).  Returns per pair {'impl','alone','model','regions'}"""
     jobs = [h for h, _ in pairs] + [proj(h, G) for h, G in pairs]
     res = base.run_jobs(ctx, jobs)
     n = len(pairs)
     mod = None
-    try:
-        mod = base.run_model(ctx, [h for h, _ in pairs], tag=label)
-    except Exception as e:  # noqa
-        ctx.broken_tie('model evaluation failed: %s' % str(e)[:600])
+    if model:
+        try:
+            mod = base.run_model(ctx, [h for h, _ in pairs], tag=label)
+        except Exception as e:  # noqa
+            ctx.broken_tie('model evaluation failed: %s' % str(e)[:600])
     out = []
     for k, (h, G) in enumerate(pairs):
         out.append({'impl': res[k], 'alone': res[n + k], 'model': None if mod is None else mod[k], 'regions': base.regions_of(h)})
@@ -180,9 +192,18 @@ def report(ctx, label, h, G, info):
     for i, j in bad:
         # open regions whose cause is (transitively) an operation of the OTHER family
         known = [f for f in excused(h, G, i) if ctx.is_open_region(base.OPEN[f])]
-        if known:
+        # inside an open region only the behaviour the faithful model reproduces is a known finding; an outcome
+        # the model does not predict (another setting leaking, another order) is a violation with this input
+        beyond = bool(known) and mod is not None and i < len(mod) and mod[i] != impl[i]
+        if known and not beyond:
             for f in known:
                 ctx.hist('known_region', base.OPEN[f])
+            continue
+        if beyond:
+            ctx.violation('%s: operation %d (%s on class %s of family G) lies in the open region %s, but gives %s where today\'s '
+                          'behaviour (state model) is %s; on its own: %s' % (label, i, h[i]['op'], base.op_class(h[i]), '/'.join(known),
+                                                                         impl[i], mod[i], alone[j]),
+                          {'kind': 'pair', 'history': h[:i + 1], 'G': sorted(G), 'full_history': h, 'index': i, 'model': mod[i]})
             continue
 
         def fails(hh, target=h[i]):
@@ -243,6 +264,22 @@ def run(ctx):
         ctx.hist('g_outcome_changed', '%s/%s' % (rel, 'yes' if bad else 'no'))
     ctx.sample({'relation': rels[0], 'history': pairs[0][0], 'G': sorted(pairs[0][1]), 'impl': infos[0]['impl'], 'alone': infos[0]['alone']})
     ctx.sample({'relation': rels[1], 'history': pairs[1][0], 'G': sorted(pairs[1][1]), 'impl': infos[1]['impl'], 'alone': infos[1]['alone']})
+    # extended grammar (direct predicate only): Meta settings outside the Coq model (recursive=False roots combined
+    # with auto_assign_tags / tag_key / marshal_date_time_as / skip_if / json_key_to_field), F and G configured from the
+    # SAME Python objects (one mapping dict, one Condition), datetime / Any / bool fields, failing dumps
+    rx = ctx.sub_rng('pairs_x')
+    px, relx = [], []
+    for k in range(300 if quick else 4000):
+        rel = RELATIONS[k % 4] if k % 3 else 'shared_nested'
+        px.append(gen_pair(rx, rel, ext=True))
+        relx.append(rel)
+    infx = check_pairs(ctx, px, 'c07x', model=False)
+    for (h, G), rel, info in zip(px, relx, infx):
+        ctx.count(1, key='x:' + base.history_text(h) + json.dumps(sorted(G)), nontrivial=True)
+        ctx.hist('relation_x', rel)
+        bad = report(ctx, 'C07x', h, G, info)
+        ctx.hist('g_outcome_changed_x', '%s/%s' % (rel, 'yes' if bad else 'no'))
+    ctx.sample({'extended': True, 'relation': relx[0], 'history': px[0][0], 'G': sorted(px[0][1]), 'impl': infx[0]['impl'], 'alone': infx[0]['alone']})
 
 
 def replay(ctx, obj):
